@@ -117,6 +117,16 @@ def key_leading(g: Greedy, ctx: Context) -> Tuple[Optional[lin.Lin], str]:
         body = k.body
         if isinstance(body, ast.Tuple):
             body = body.elts[0]
+        # lambda t: self.m(a, t): the method's return expression with its parameters bound (same as partial(self.m, a))
+        if isinstance(body, ast.Call) and is_self_attr(body.func) and not body.keywords and methods(g.cls).get(body.func.attr) is not None:
+            m = methods(g.cls)[body.func.attr]
+            params = [a.arg for a in m.args.args[1:]]
+            var = k.args.args[0].arg
+            rets = [r for r in ast.walk(m) if isinstance(r, ast.Return)]
+            if len(rets) == 1 and len(params) == len(body.args) and sum(1 for a in body.args if isinstance(a, ast.Name) and a.id == var) == 1:
+                bound = {p: lin.lin_of(a) for p, a in zip(params, body.args) if not (isinstance(a, ast.Name) and a.id == var)}
+                rest = [p for p, a in zip(params, body.args) if isinstance(a, ast.Name) and a.id == var]
+                return _rename(lin.lin_of(rets[0].value, env=bound), rest[0]), norm(k) + " -> " + norm(rets[0].value)
         return _abstract(body, k.args.args[0].arg), norm(k)
     if isinstance(k, ast.Call) and call_name(k) == "attrgetter" and k.args and isinstance(k.args[0], ast.Constant):
         return lin.Lin({f"T.{k.args[0].value}": 1}), norm(k)
@@ -257,7 +267,22 @@ def r2_r3_greedy_loop(ctx: Context, rule2="C13.R2", rule3="C13.R3") -> None:
             ok = cg.edge_dominates(ft, "T", bn) or any(cg.edge_dominates(t, "T", bn) and _flag_set_only_on_success(cg, ft, t.ast.id) for t in flag_tests)
             ctx.check(ok, rule3, f"{g.q}|break at line {b.lineno} only after a successful placement", loc(b), "after success",
                       "a break skips remaining strategies/pools although nothing was placed")
-        for c in [x for x in ast.walk(ast.Module(body=g.loop.body, type_ignores=[])) if isinstance(x, ast.Continue)]:
+        def _own_loop(x):
+            q = parent(x)
+            while q is not None and not isinstance(q, (ast.For, ast.While)):
+                q = parent(q)
+            return q
+        def _after_exhausted_search(x):
+            # `for pool in pools: <fit test> ... else: continue`: the continue runs only after every pool was tried for this option
+            q = parent(x)
+            while q is not None and q is not g.loop:
+                if isinstance(q, ast.For) and any(y is x for z in q.orelse for y in ast.walk(z)) and any(y is ft.ast for y in ast.walk(ast.Module(body=q.body, type_ignores=[]))):
+                    return True
+                q = parent(q)
+            return False
+        # a `continue` skips a task (task loop) or an option (strategy / pool loops) unless it follows an exhausted search
+        for c in [x for x in ast.walk(ast.Module(body=g.loop.body, type_ignores=[])) if isinstance(x, ast.Continue)
+                  and not (_own_loop(x) is not g.loop and _after_exhausted_search(x))]:
             cn = cg.node_of(c)
             ok = any(t.kind == "test" and "enforce_deadlines" in norm(t.ast) and cg.edge_dominates(t, "T", cn) for t in cg.nodes)
             ctx.check(ok, rule3, f"{g.q}|continue at line {c.lineno} only for the deadline cancellation", loc(c), "cancellation branch",
